@@ -382,8 +382,15 @@ def gen_history(rng: Any, seed: int) -> dict:
         t0 = min(e[0] for e in tl if e[1] == "start" and e[2] == nm)
         if not any(e[1] in ("stop", "kill") and e[2] == nm and e[0] <= t0 + 2 for e in tl):
             tl.append([t0 + rng.choice([2, 3, 4, 5]) / 64, "stop", nm])
+    hdelay = rng.choice([0.5, 1.5, 1.5, 3.0]) if rng.random() < 0.3 else 0.0
+    if hdelay and rng.random() < 0.5:
+        # ... and somebody is stopped while its handler runs (the exit window)
+        edits = [e for e in tl if e[1] == "edit"]
+        if edits:
+            e = rng.choice(edits)
+            tl.append([e[0] + rng.choice([0.25, 0.5, 1.0]), "stop", max(names, key=lambda x: ops[x]["priority"])])
     return {"seed": seed, "peering": rng.choice(["default", "verif-peers"]), "ops": ops, "pre_status": pre,
-            "response_latency": resp_lat,
+            "response_latency": resp_lat, "handler_delay": hdelay,
             "sticky_identities": rng.random() < 0.25,
             "objects": [{"name": "a", "body": {"spec": {"x": 0}}}], "timeline": sorted(tl, key=lambda e: e[0]),
             "delivery": delivery, "end": end}
@@ -806,6 +813,39 @@ def oracle_history(ctx: Ctx, sc: dict, tr: dict, full: bool = False) -> dict:
                      "handler executed twice for one change by one operator", inc=i["inc"], t=c["t"])
                 break
             seen[key] = c["t"]
+
+    # ---- (H) STRICT: one change is not handled by two operators that both count as active -------------------------------
+    # (also in the exit window, around every pause/resume, in every regime; tolerated only: the first one was killed, or
+    #  one of the two was paused at that moment = the property's own "events already queued" exception)
+    by_change: dict[tuple, list] = {}
+    for c in tr["calls"]:
+        if c["kind"] in ("create", "update"):
+            by_change.setdefault((c["uid"], c["id"], c["x"] if c["kind"] == "update" else None), []).append(c)
+    for key, cs in by_change.items():
+        cs = sorted(cs, key=lambda c: c["t"])
+        reported = False
+        for n2, c2 in enumerate(cs):
+            for c1 in cs[:n2]:
+                if c1["inc"] == c2["inc"] or reported:
+                    continue
+                i1, i2 = by_inc[c1["inc"]], by_inc[c2["inc"]]
+                gone1 = [x for x in (i1["t_killed"], H.t_fail.get(i1["inc"])) if x is not None and x <= c2["t"]]
+                if gone1 or H.paused_at(i1["inc"], c2["t"]) or H.paused_at(i2["inc"], c2["t"]) or H.paused_at(i1["inc"], c1["t"]):
+                    continue
+                reported = True
+                what = (f"change {key[1]}(x={key[2]}) of {c1['name']} handled by {i1['name']} at {c1['t']} (until {c1.get('t_end')}) AND by "
+                        f"{i2['name']} at {c2['t']}, both active at those moments")
+                exiting = i1["t_stop_req"] is not None and i1["t_stop_req"] <= c2["t"] and (i1["t_stopped"] is None or c2["t"] <= i1["t_stopped"])
+                if exiting:
+                    ctx.oracle_fail(what + f": {i1['name']} was asked to stop at {i1['t_stop_req']}, withdrew its record at once and went on "
+                                    f"handling until {i1['t_stopped']}; the successor resumed meanwhile",
+                                    {"scenario": sc, "t": c2["t"]},
+                                    {"site": "orchestration.orchestrator", "shape": "the successor handles a change the exiting operator is still handling"})
+                elif H.late:
+                    ctx.oracle_fail(what + " (peering events arrive later than a keep-alive margin)", {"scenario": sc, "t": c2["t"]},
+                                    {"site": "peering.clean", "shape": "fresh record of a running operator deleted by a peer", "regime": "late-delivery"})
+                else:
+                    fail(what, "one change handled by two active operators", t=c2["t"])
 
     # ---- (G) a change made in a quiet period is handled exactly once, by the active operator ---------------------------
     Wg = H.W + 1.0
